@@ -59,9 +59,10 @@ class Setup:
             ip = c.get("init_perm")
             if ip is not None:
                 units = ip.get("units", U.Units.kg_m2_h_kPa)
+                units = list(units) if isinstance(units, (list, tuple)) else [units, units]  # one unit per component is allowed
                 pair = []
-                for v, comp in zip(ip["values"], (self.mixture.first_component, self.mixture.second_component)):
-                    pair.append(U.exact_permeance(v, units, comp.molecular_weight))
+                for v, comp, un in zip(ip["values"], (self.mixture.first_component, self.mixture.second_component), units):
+                    pair.append(U.exact_permeance(v, un, comp.molecular_weight))
                 self.init_perm = tuple(pair)
             self.fit_kwargs = dict(c.get("fit_kwargs", {}))
         # the observing subclass is semantically transparent.  Trace checks do not wait for flux calculations that need more
@@ -351,3 +352,97 @@ def justify_raise(setup, exc):
 
 def trace_digest(tr):
     return core.digest_of([tr["m"], tr["x"], tr["T"], tr["J"], tr["Q"]])
+
+
+# ---------------------------------------------------------------------------------------------
+# recycled caller objects: a decoy run first, then every caller-owned object is edited IN PLACE to the target case
+# ---------------------------------------------------------------------------------------------
+def _decoy_case(case):
+    c = dict(case)
+    c["x0"] = 0.37 if abs(case["x0"] - 0.37) > 0.05 else 0.58
+    c["area"] = case["area"] * 3.0
+    c["amount"] = case["amount"] * 0.5
+    c["T"] = case["T"] + 6.5
+    if "tref_abs" not in c:
+        c["tref_abs"] = case["T"] + case.get("tref_offset", 0.0) + 4.0  # the decoy membrane's experiments sit elsewhere
+    else:
+        c["tref_abs"] = case["tref_abs"] + 4.0
+    p = case.get("P", (1e-2, 1e-4))
+    c["P"] = (p[0] * 1.7, p[1] * 0.6)
+    ea = case.get("ea", (25000.0, 60000.0))
+    c["ea"] = tuple((e + 7000.0) if isinstance(e, (int, float)) else e for e in ea)
+    if case.get("prog", "none") != "none":
+        c["prog"] = "exp3" if case["prog"].startswith("poly") else "poly"  # a programme of ANOTHER type
+    if case.get("init_perm") is not None:
+        ip = dict(case["init_perm"])
+        ip["values"] = [ip["values"][0] * 1.4, ip["values"][1] * 0.8]
+        c["init_perm"] = ip
+    c["steps"] = min(case["steps"], 2)
+    return c
+
+
+def recycled_objects_run(case):
+    """Runs a decoy case, then sets every caller-owned object of the decoy (Conditions, its Composition and programme, the membrane's
+    experiments, the initial permeances) IN PLACE to the values of `case` and runs `case` on those very objects (same Pervaporation
+    object too).  Returns (status, model) of that run, or None when an object refuses in-place edits (frozen classes are legitimate)."""
+    target = Setup(case)
+    try:
+        decoy = Setup(_decoy_case(case))
+    except Exception:  # noqa: BLE001 - no decoy for this case
+        return None
+    decoy.run()
+    try:
+        dc, tc = decoy.conditions, target.conditions
+        dc.membrane_area = tc.membrane_area
+        dc.initial_feed_temperature = tc.initial_feed_temperature
+        dc.initial_feed_amount = tc.initial_feed_amount
+        dc.initial_feed_composition.p = tc.initial_feed_composition.p
+        dc.initial_feed_composition.type = tc.initial_feed_composition.type
+        dc.permeate_temperature = tc.permeate_temperature
+        dc.permeate_pressure = tc.permeate_pressure
+        if dc.temperature_program is not None and tc.temperature_program is not None:
+            dc.temperature_program.type = tc.temperature_program.type
+            dc.temperature_program.coefficients = tc.temperature_program.coefficients
+        else:
+            dc.temperature_program = tc.temperature_program
+        de, te = decoy.membrane.ideal_experiments.experiments, target.membrane.ideal_experiments.experiments
+        if len(de) != len(te):
+            return None
+        for a, b in zip(de, te):
+            a.temperature = b.temperature
+            a.permeance.value = b.permeance.value
+            a.permeance.units = b.permeance.units
+            a.activation_energy = b.activation_energy
+        if target.init_perm is not None:
+            for a, b in zip(decoy.init_perm, target.init_perm):
+                a.value, a.units = b.value, b.units
+    except (AttributeError, TypeError) as e:  # frozen / slotted classes: in-place edits are not part of their contract
+        if "frozen" in type(e).__name__.lower() or "frozen" in str(e).lower() or "can't set" in str(e).lower():
+            return None
+        raise
+    decoy.steps, decoy.dt, decoy.precision, decoy.model = target.steps, target.dt, target.precision, target.model
+    decoy.fit_kwargs = target.fit_kwargs
+    return decoy.run()
+
+
+def check_recycled(case, tr, key):
+    """violations (list) of the recycled-caller-objects sequence against the fresh-object trace `tr`."""
+    r = recycled_objects_run(case)
+    if r is None:
+        return [], 0
+    st, pm = r
+    if st != "ok":
+        from . import solver as _s
+        if isinstance(pm, _s.Budget):
+            return [], 0
+        return [core.viol(key, "the run returns on fresh objects but raises %r when the caller's objects (Conditions, Composition, programme, membrane experiments, "
+                               "initial permeances, Pervaporation object) were used for another run first and then set in place to this run's values" % (pm,))], 1
+    try:
+        t2 = extract(pm)
+    except Exception as e:  # noqa: BLE001
+        return [core.viol(key, "recycled-objects run returns an unreadable model: %r" % (e,))], 1
+    if trace_digest(t2) != trace_digest(tr):
+        return [core.viol(key, "the trace differs when the caller's objects (Conditions, Composition, programme, membrane experiments, initial permeances, "
+                               "Pervaporation object) were used for another run first and then set in place to this run's values",
+                          fresh=[tr["m"][:3], tr["T"][:3], tr["J"][:2], tr["Q"][:2]], recycled=[t2["m"][:3], t2["T"][:3], t2["J"][:2], t2["Q"][:2]])], 1
+    return [], 1
